@@ -106,3 +106,17 @@ fn ieee_integer_guard() {
         assert!(i as f64 == x);
     }
 }
+
+/// C09 encoding layer: the std contracts assumed for u16::{to,from}_{le,be}_bytes in contracts/vmbytes.vx,
+/// over all 65536 values (complete)
+#[kani::proof]
+fn vm_le_bytes() {
+    let d: u16 = kani::any();
+    let lo = (d & 0xff) as u8;
+    let hi = (d >> 8) as u8;
+    assert!(d.to_le_bytes() == [lo, hi]);
+    assert!(d.to_be_bytes() == [hi, lo]);
+    let (b0, b1): (u8, u8) = (kani::any(), kani::any());
+    assert!(u16::from_le_bytes([b0, b1]) == (b0 as u16) | ((b1 as u16) << 8));
+    assert!(u16::from_be_bytes([b0, b1]) == (b1 as u16) | ((b0 as u16) << 8));
+}
